@@ -28,6 +28,10 @@ type c06Case struct {
 	Decoy bool `json:"decoy,omitempty"`
 	// Chain: a sequence of operations applied to ONE receiver, judged after every step (Op == "chain").
 	Chain []c06Step `json:"chain,omitempty"`
+	// SMove / TMove: the receiver resp. the operand is an object that reached its value through a move (mon/move.go):
+	// built through the API, observed, driven through one mutator or misuse; S resp. T is then ignored.
+	SMove *mon.ScalarMove `json:"receiver_move,omitempty"`
+	TMove *mon.ScalarMove `json:"operand_move,omitempty"`
 }
 
 type c06Step struct {
@@ -66,6 +70,20 @@ func c06Generate(c *mon.Ctx) {
 	n := oracle.N
 	st := gen.Structured(n)
 	hx := func(v *big.Int) string { return fmt.Sprintf("%x", v) }
+
+	// operands and receivers that reached their value through every move (built through the API, driven through a mutator,
+	// used as the argument of other calls, of calls that panic, ...)
+	mvr := c.SharedRng("moves")
+
+	for rep := 0; rep < 3; rep++ {
+		for vi, via := range mon.ScalarVias {
+			op := []string{"add", "sub", "mul"}[(vi+rep)%3]
+			tm, sm := mon.PlanScalarMove(via, mvr), mon.PlanScalarMove(via, mvr)
+			other := hx(gen.Draw(mvr, n).X)
+			c.Structured(func() any { return &c06Case{Op: op, S: other, TMove: &tm, Class: "moved-operand:" + tm.Via} })
+			c.Structured(func() any { return &c06Case{Op: op, T: other, SMove: &sm, Class: "moved-receiver:" + sm.Via} })
+		}
+	}
 
 	// unary ops on every structured value
 	for _, v := range st {
@@ -365,8 +383,28 @@ func c06Run(c *mon.Ctx, csAny any) {
 			d.Multiply(mon.Scal(big.NewInt(3))).Add(mon.Scal(big.NewInt(1)))
 		})
 	}
-	sv := mon.BigH(cs.S)
-	s := mon.Scal(sv)
+	var (
+		sv *big.Int
+		s  *secp256k1.Scalar
+	)
+
+	if cs.SMove == nil {
+		sv = mon.BigH(cs.S)
+		s = mon.Scal(sv)
+	} else {
+		var (
+			pan bool
+			pv  any
+		)
+
+		s, sv, pan, pv = mon.MoveScalar(*cs.SMove, func(x *secp256k1.Scalar) { _, _ = x.Encode(), x.Bits() })
+		if pan {
+			c.Fail(fmt.Sprintf("scalar mutator %s panicked: %v", cs.SMove.Via, pv), "arith-history-panic", nil)
+			return
+		}
+
+		c.Count("moved-receiver")
+	}
 
 	var (
 		t  *secp256k1.Scalar
@@ -374,6 +412,19 @@ func c06Run(c *mon.Ctx, csAny any) {
 	)
 
 	switch {
+	case cs.TMove != nil:
+		var (
+			pan bool
+			pv  any
+		)
+
+		t, tv, pan, pv = mon.MoveScalar(*cs.TMove, func(x *secp256k1.Scalar) { _, _ = x.Encode(), x.Bits() })
+		if pan {
+			c.Fail(fmt.Sprintf("scalar mutator %s panicked: %v", cs.TMove.Via, pv), "arith-history-panic", nil)
+			return
+		}
+
+		c.Count("moved-operand")
 	case cs.Alias:
 		t, tv = s, sv
 
